@@ -42,6 +42,7 @@ def evaluate(case):
     def on_step(m, i, name):
         steps[0] += 1
         em.structural_invariants(m.tree, m.model, where="after step %d (%s)" % (i, name))
+        em.check_ghosts(m, "after step %d (%s)" % (i, name), structural=True, values=False)
 
     m = em.Machine(case, on_step=on_step).run()
     classes = set(m.classes)
